@@ -18,7 +18,7 @@ from .. import nf, vg
 from ..core import Ctx
 from ..model import AnalysisError
 
-FLOOR = 32
+FLOOR = 34
 EXPLANATION = (
     "Static (AST) analysis of every torch DataLoader construction in the package, of the dataset classes in rl4co/data/dataset.py, "
     "of RolloutBaseline.rollout/wrap_dataset, EvalBase.__call__ and evaluate_policy: own collate_fn, no shuffling/sampling/"
